@@ -26,7 +26,7 @@ RULE = (
     "none/empty/unparsable, text/plain, html, xhtml, xml, svg, css, json, javascript, octet-stream with no charset or a "
     "charset from ~45 names (latin-1, utf-8, utf-16/32 +le/be, gb2312/gbk/gb18030, ascii, cp1252, CJK and Cyrillic sets, "
     "utf-7, utf-8-sig, quoted, bogus, empty, content-coding and binary-codec names) in several parameter spellings. "
-    "distinct = (media class, charset, parameter spelling, string feature set, content-encoding flag, message kind); "
+    "distinct = (media class, charset, parameter spelling, string feature set of the first text, #assignments, content-encoding flag); "
     "non-trivial = the string has a non-ASCII character, a declaration or a BOM-like prefix, or a charset parameter is present"
 )
 ASSUMPTIONS = [
@@ -81,10 +81,10 @@ def gen_decl(r):
 def gen_string(r):
     feats = set()
     parts = []
-    if r.random() < 0.22:
+    if r.random() < 0.14:
         parts.append(r.choice(BOMISH))
         feats.add("bomish")
-    if r.random() < 0.30:
+    if r.random() < 0.22:
         d, kind = gen_decl(r)
         if r.random() < 0.3:
             parts.append(r.choice(["<html><head>", " ", "\n", "/* */"]))
@@ -103,7 +103,7 @@ def gen_string(r):
         elif k < 0.87:
             parts.append(r.choice(ASTRAL))
             feats.add("astral")
-        elif k < 0.91:
+        elif k < 0.93:
             parts.append("\x00")
             feats.add("nul")
         elif k < 0.95:
@@ -210,4 +210,4 @@ def run(ctx):
                 sample = {"content_type": ct_before, "text": s[:80], "content_type_after": wit["content_type_after"], "raw": wit["raw"][:40]}
         f0 = feats_all[0]
         nontrivial = cs is not None or any(f not in ("ascii", "empty") for fs in feats_all for f in fs)
-        ctx.case((mclass, cs, sp, f0, len(feats_all), bool(ce), kind), nontrivial=nontrivial, sample=sample)
+        ctx.case((mclass, cs, sp, f0, len(feats_all), bool(ce)), nontrivial=nontrivial, sample=sample)
